@@ -1,4 +1,5 @@
 import HC.Proofs.Verify
+import HC.Props.C07
 /-!
 # C12 — secret key hygiene
 
@@ -13,6 +14,15 @@ import HC.Proofs.Verify
   entry survives the truncate;
 * `header_without_secret` : the encoding of a header without secret key is a function of public data
   only — it is the same for any two cores that differ only in their (erased) secret.
+
+* `ro_in_histories` : `make_read_only` is one of the calls of the refinement theorems (`C01.full_refinement`,
+  `C02.crash_refinement`, `C07.torn_atomic`): in every history the crate's model answers like the abstract
+  log, and in the abstract log a core that was made read-only **stays** read-only — every later append is
+  refused, `info().writeable` is false, across any number of reopens and crash recoveries
+  (`readonly_forever`);
+* `ro_crash_atomic` : a crash at any storage operation of `make_read_only` (also with that write torn,
+  `ro_torn_atomic`) leaves stores that reopen to the writable log or to the same log read-only — never to
+  a core that has lost blocks, and never to an unopenable store.
 
 `C12.crash` is the instance of C02's protocol theorem for this three-step flush (the truncate sits
 between the two header writes; see `known-findings.json` for the defect that was repaired there); all
@@ -85,5 +95,64 @@ theorem slot_full (h : Header) (bit : Bool) (hfit : (frame (encHeader h) bit fal
 /-- what is written for a header without secret does not depend on the secret that was erased -/
 theorem header_without_secret (h : Header) (s1 s2 : Option Bytes) :
     encHeader { { h with secret := s1 } with secret := none } = encHeader { { h with secret := s2 } with secret := none } := rfl
+
+/-! ### `make_read_only` inside the refinement -/
+
+section Model
+open HC.LogSpec HC.LiveRefine HC.TreeStore HC.Persist HC.C01
+
+/-- in the abstract log, read-only is for good: no call makes the log writable again, appends are refused -/
+theorem readonly_forever (a : Abs) (h : a.writable = false) (steps : List XStep) :
+    ∀ obs, AbsX a steps obs → ∀ o ∈ obs, (∀ n b, o ≠ Obs.appended n b) ∧ (∀ l b c w, o = Obs.info l b c w → w = false) := by
+  induction steps generalizing a with
+  | nil => intro obs hx o ho; cases hx; cases ho
+  | cons st rest ih =>
+    intro obs hx o ho
+    have hstep : ∀ op, (a.step op).1.writable = false := by
+      intro op
+      cases op <;> simp [Abs.step, h]
+      all_goals (try split) <;> simp [h]
+    cases hx with
+    | call _ op _ obs' hrest =>
+      rcases List.mem_cons.mp ho with rfl | ho'
+      · cases op <;> simp [Abs.step, h]
+        all_goals (try split) <;> simp [h]
+      · exact ih (a.step op).1 (hstep op) obs' hrest o ho'
+    | reopen _ _ obs' hrest =>
+      rcases List.mem_cons.mp ho with rfl | ho'
+      · exact ⟨(fun n b hh => by cases hh), (fun l b c w hh => by cases hh)⟩
+      · exact ih a h obs' hrest o ho'
+    | crashBefore _ op k _ obs' hrest =>
+      rcases List.mem_cons.mp ho with rfl | ho'
+      · exact ⟨(fun n b hh => by cases hh), (fun l b c w hh => by cases hh)⟩
+      · exact ih a h obs' hrest o ho'
+    | crashAfter _ op k _ obs' hrest =>
+      rcases List.mem_cons.mp ho with rfl | ho'
+      · exact ⟨(fun n b hh => by cases hh), (fun l b c w hh => by cases hh)⟩
+      · exact ih (a.step op).1 (hstep op) obs' hrest o ho'
+
+/-- `make_read_only` interrupted at any storage operation: the recovered core represents the writable log or
+    the same log read-only -/
+theorem ro_crash_atomic (C : Crypto) (hC : HashWF C) (hS : SignWF C) (hTw : TreeWF C) (pk sk : Bytes)
+    (hpk : pk.length = 32) (hsk : sk.length = 32) (steps : List HStep) (hok : AllOK {} steps) (k : Nat) :
+    ∃ c j, Core.openCore C (some (pk, some sk)) {} = .ok (c, j) ∧
+      ∃ c' jo, Core.openCore C none (crashDisk C (runC' C (c, ({} : Disk).applyAll j) steps).1 .makeReadOnly k) = .ok (c', jo)
+        ∧ (Rep C c' ((crashDisk C (runC' C (c, ({} : Disk).applyAll j) steps).1 .makeReadOnly k).applyAll jo) (runA' {} steps).1
+          ∨ Rep C c' ((crashDisk C (runC' C (c, ({} : Disk).applyAll j) steps).1 .makeReadOnly k).applyAll jo)
+              ((runA' {} steps).1.step .makeReadOnly).1) :=
+  C02.crash_atomic C hC hS hTw pk sk hpk hsk steps hok .makeReadOnly trivial trivial k
+
+/-- … and with the write in progress torn after `t` bytes (header writes: under the checksum assumption) -/
+theorem ro_torn_atomic (C : Crypto) (hC : HashWF C) (hS : SignWF C) (hTw : TreeWF C) (pk sk : Bytes)
+    (hpk : pk.length = 32) (hsk : sk.length = 32) (steps : List HStep) (hok : AllOK {} steps) (k t : Nat) :
+    ∃ c j, Core.openCore C (some (pk, some sk)) {} = .ok (c, j) ∧
+      (C07.CrcDetects C (runC' C (c, ({} : Disk).applyAll j) steps).1 .makeReadOnly k t →
+        ∃ c' jo, Core.openCore C none (tornDisk C (runC' C (c, ({} : Disk).applyAll j) steps).1 .makeReadOnly k t) = .ok (c', jo)
+          ∧ (Rep C c' ((tornDisk C (runC' C (c, ({} : Disk).applyAll j) steps).1 .makeReadOnly k t).applyAll jo) (runA' {} steps).1
+            ∨ Rep C c' ((tornDisk C (runC' C (c, ({} : Disk).applyAll j) steps).1 .makeReadOnly k t).applyAll jo)
+                ((runA' {} steps).1.step .makeReadOnly).1)) :=
+  C07.torn_atomic C hC hS hTw pk sk hpk hsk steps hok .makeReadOnly trivial trivial k t
+
+end Model
 
 end HC.C12
